@@ -122,6 +122,22 @@ def check_reach(rep, mod, flags):
             for d in P.deps(r.ops[0]):
                 if d[0] == 'call':
                     flows.add(base_name(d[1]))
+        # ... and that of EVERY call site (a resumed check whose result is dropped lets the corrupted stream through with the previous 0)
+        for cs in [i for i in f.all_insns() if i.op == 'call' and base_name(i.callee or '') in ('check_gzip_checksum', 'check_zlib_checksum')]:
+            seen, work, hit = set(), [cs.dst] if cs.dst else [], False
+            while work and not hit:
+                v = work.pop()
+                if v in seen:
+                    continue
+                seen.add(v)
+                for u_ in f.all_insns():
+                    if u_.op == 'ret' and u_.ops and u_.ops[0] == v:
+                        hit = True
+                        break
+                    if u_.dst and ((u_.op == 'phi' and any(x == v for x, _ in u_.extra['incoming'])) or (u_.op in ('select', 'zext', 'sext', 'trunc', 'freeze', 'bitcast') and v in (u_.ops or []))):
+                        work.append(u_.dst)
+            R.check(hit, mod.where(f, cs), '%s: the result of this %s call never reaches the return value: a mismatch found here is reported as success' % (fn, base_name(cs.callee)),
+                    key='R-VERIFY-REACH|%s|site|%s' % (fn, cs.line or 0))
         R.check({'check_gzip_checksum', 'check_zlib_checksum'} <= flows, mod.where(f, None), '%s: the comparators\' results do not flow to the return value (flows: %s)' % (fn, sorted(flows & {'check_gzip_checksum', 'check_zlib_checksum'})),
                 key='R-VERIFY-REACH|%s|flow' % fn)
 
